@@ -91,8 +91,8 @@ def run_case(c):
     vin, vout, index, dist = kd_tree.get_neighbour_info(src, tgt, radius, **kw)
     out["valid_in"] = [int(bool(v)) for v in vin]
     out["valid_out"] = [int(bool(v)) for v in vout]
-    index2 = np.asarray(index).reshape(len(index), -1)
-    dist2 = np.asarray(dist, dtype=np.float64).reshape(len(index), -1)
+    index2 = np.asarray(index).reshape(len(index), k)
+    dist2 = np.asarray(dist, dtype=np.float64).reshape(len(index), k)
     out["index"] = [[int(v) for v in row] for row in index2]
     out["dist"] = [[hx(v) for v in row] for row in dist2]
     out["index_ndim"] = int(np.asarray(index).ndim)
